@@ -198,16 +198,15 @@ theorem subsetOf_encode (en : Method → Bool) : encode en < 65536 ∧ ∀ m, su
 
 
 /-- **C01 in every configuration**: whatever subset of the sixteen methods is enabled (and whatever the build's default and
-    descrypt switch), a successful result of one of the twelve methods with a proved front-end round trip is accepted again,
+    descrypt switch), every successful result of every enabled method is accepted again,
     dispatched to the same row, and reproduces itself -/
 theorem C19_roundtrip_every_config (en : Method → Bool) (dflt : Option Bytes) (d : Bool) (D : Digests) (hD : D.WF) (p s H : Bytes)
-    (h : cryptPure { table := mkTable Gen.hashesConf en, dflt := dflt, descryptOn := d } D p s = .ok H)
-    (hm : ∀ r, getHashFn (mkTable Gen.hashesConf en) s = some r → C01.proved r.crypt = true) :
+    (h : cryptPure { table := mkTable Gen.hashesConf en, dflt := dflt, descryptOn := d } D p s = .ok H) :
     cryptPure { table := mkTable Gen.hashesConf en, dflt := dflt, descryptOn := d } D p H = .ok H := by
   obtain ⟨hlt, heq⟩ := subsetOf_encode en
   have hen : subsetOf (encode en) = en := funext heq
   have hT := C19_tableOk (encode en) hlt
   rw [hen] at hT
-  exact C01.C01_roundtrip _ hT D hD p s H h hm
+  exact C01.C01_roundtrip _ hT D hD p s H h
 
 end Xc.C19
